@@ -5,6 +5,7 @@
 // the driver reads FILE.crumb, which always holds the descriptor of the case being run.
 #pragma once
 
+#include <errno.h>
 #include <fcntl.h>
 #include <inttypes.h>
 #include <stdarg.h>
@@ -21,6 +22,16 @@
 #include <vector>
 
 namespace vf {
+
+// errno poisoning: every breadcrumb update (i.e. right before each call into phosg) leaves a
+// different stale errno behind, as an earlier unrelated libc call in the same thread could.
+// Correct code never depends on the errno value it finds on entry; code that tests errno without
+// clearing it first (a lost `errno = 0` before strtoul/pow/vswprintf...) shows up as a wrong result.
+inline void poison_errno() {
+  static const int vals[] = {ERANGE, EILSEQ, EINVAL, 0, ERANGE, EDOM, ENOENT, ERANGE, EOVERFLOW, 0, EINTR, EAGAIN};
+  static thread_local unsigned k = 0;
+  errno = vals[(k++) % (sizeof(vals) / sizeof(vals[0]))];
+}
 
 struct Rng {
   uint64_t s;
@@ -148,8 +159,10 @@ struct Ctx {
     va_start(va, f);
     vsnprintf(crumb_buf, CRUMB - 1, f, va);
     va_end(va);
+    poison_errno();
   }
   inline void crumb_s(const std::string& s) {
+    poison_errno();
     if (!crumb_buf) return;
     size_t n = s.size() < CRUMB - 1 ? s.size() : CRUMB - 1;
     memcpy(crumb_buf, s.data(), n);
@@ -157,6 +170,7 @@ struct Ctx {
   }
   // cheap binary crumb: up to 6 numbers after a constant tag
   inline void crumb_n(const char* tag, uint64_t a = 0, uint64_t b = 0, uint64_t c = 0, uint64_t d = 0, uint64_t e = 0, uint64_t f = 0) {
+    poison_errno();
     if (!crumb_buf) return;
     uint64_t* p = (uint64_t*)(crumb_buf + 2048);
     p[0] = 0x4352554d424e554dULL;
